@@ -12,10 +12,34 @@ CHECK_DEADLOCK FALSE
 """
 
 
-def module_src(k, imps):
+DIRNAME = "teile"
+
+
+def mpath(t, indir):
+    """import path of module t: modules listed in the graph's `dir` live in the directory teile/ (they import nothing themselves)"""
+    return "%s/m%d" % (DIRNAME, t) if t in indir else "m%d" % t
+
+
+def import_lines(imps, indir, marker=None):
+    """one statement per entry; a run of entries with via == "dir" is ONE directory import (its meaning: every module of the directory, in name order)"""
+    lines = []
+    for k, t in enumerate(imps, 1):
+        if t.get("cont"):
+            continue
+        if marker:
+            lines.append(marker % (100 + k))
+        if t.get("via") == "dir":
+            lines.append('Binde alle Module aus "%s" ein.' % DIRNAME)
+        elif t["sel"] == "all":
+            lines.append('Binde "%s" ein.' % mpath(t["t"], indir))
+        else:
+            lines.append('Binde %s%d aus "%s" ein.' % ("wert" if t["sel"] == "pub" else "zeige", t["t"], mpath(t["t"], indir)))
+    return lines
+
+
+def module_src(k, imps, indir=()):
     lines = ['Binde "Duden/Ausgabe" ein.']
-    for t in imps:
-        lines.append('Binde "m%d" ein.' % t["t"])
+    lines += import_lines(imps, indir)
     lines += ["Die Funktion helfer gibt eine Zahl zurück, macht:", '\tSchreibe "h%d ".' % k, "\tGib %d zurück." % k, "Und kann so benutzt werden:", '\t"hilf mir"', "",
               "Die öffentliche Zahl wert%d ist hilf mir." % k, "Die Zahl geheim%d ist 100 plus %d." % (k, k),
               "Die öffentliche Funktion zeige%d gibt eine Zahl zurück, macht:" % k,
@@ -24,14 +48,9 @@ def module_src(k, imps):
     return "\n".join(lines) + "\n"
 
 
-def main_src(imps, probe=None):
+def main_src(imps, probe=None, indir=()):
     lines = ['Binde "Duden/Ausgabe" ein.']
-    for k, t in enumerate(imps, 1):
-        lines.append('Schreibe "s%d ".' % (100 + k))
-        if t["sel"] == "all":
-            lines.append('Binde "m%d" ein.' % t["t"])
-        else:
-            lines.append('Binde %s%d aus "m%d" ein.' % ("wert" if t["sel"] == "pub" else "zeige", t["t"], t["t"]))
+    lines += import_lines(imps, indir, marker='Schreibe "s%d ".')
     lines.append('Schreibe "s200 ".')
     expect_sum = []
     for t in imps:
@@ -41,7 +60,7 @@ def main_src(imps, probe=None):
     if probe:
         j, name = probe[0], probe[1]
         if name == "reexp":
-            lines.insert(1, 'Binde wert%d aus "m%d" ein.' % (probe[2], j))
+            lines.insert(1, 'Binde wert%d aus "%s" ein.' % (probe[2], mpath(j, indir)))
             lines.append("Die Zahl probe ist wert%d." % probe[2])
         else:
             lines.append("Die Zahl probe ist %s." % {"pub": "wert%d" % j, "fn": "zeige%d" % j, "priv": "geheim%d" % j}[name])
@@ -74,7 +93,13 @@ def graphs(tier, rng):
         if g[0]:
             sels.append([rng.choice(["all", "pub", "fn"]) for _ in g[0]])
         for s in sels:
-            res.append(dict(n=len(g), imp=[[dict(t=t, sel=(s[k] if i == 0 else "all")) for k, t in enumerate(imps)] for i, imps in enumerate(g)]))
+            res.append(dict(n=len(g), dir=[], imp=[[dict(t=t, sel=(s[k] if i == 0 else "all"), cont=False) for k, t in enumerate(imps)] for i, imps in enumerate(g)]))
+    # directory imports: modules 2 and 3 live in teile/; "Binde alle Module aus" in the main module and / or in an imported module
+    F = lambda t: dict(t=t, sel="all", cont=False)
+    D = [dict(t=2, sel="all", cont=False, via="dir"), dict(t=3, sel="all", cont=True, via="dir")]
+    for imp in ([[F(1)], D, [], []], [D, [], [], []], [[F(1)] + D, D, [], []], [[F(2), F(1)], D, [], []], [D + [F(1)], D, [], []], [[F(1), F(3)], D, [], []],
+                [[dict(t=1, sel="fn", cont=False)], D, [], []]):
+        res.append(dict(n=4, dir=[2, 3], imp=[[dict(e) for e in l] for l in imp]))
     # duplicates out
     seen, uniq = set(), []
     for g in res:
@@ -93,9 +118,9 @@ def run(tier):
     files_of = []
     jobs = []
     for g in gs:
-        files = {"main.ddp": main_src(g["imp"][0])}
+        files = {"main.ddp": main_src(g["imp"][0], indir=g["dir"])}
         for k in range(1, g["n"]):
-            files["m%d.ddp" % k] = module_src(k, g["imp"][k])
+            files[mpath(k, g["dir"]) + ".ddp"] = module_src(k, g["imp"][k], g["dir"])
         files_of.append(files)
         jobs.append(dict(files=files, main="main.ddp"))
     answers = pool.run(jobs)
@@ -115,6 +140,7 @@ def run(tier):
     def build_run(i):
         d = runner.newdir()
         for rel, c in files_of[i].items():
+            os.makedirs(os.path.dirname(os.path.join(d, rel)), exist_ok=True)
             open(os.path.join(d, rel), "w").write(c)
         ok, stage, msg, exe = runner.build(d, "main.ddp", opt=1)
         if not ok:
@@ -132,7 +158,7 @@ def run(tier):
         for j in range(1, g["n"]):
             for name in ("pub", "fn", "priv"):
                 files = dict(files_of[i])
-                files["main.ddp"] = main_src(g["imp"][0], probe=(j, name))
+                files["main.ddp"] = main_src(g["imp"][0], probe=(j, name), indir=g["dir"])
                 pj.append(dict(files=files, main="main.ddp"))
                 pmeta.append((i, j, name))
             # a name that module j only imported must not be importable from j
@@ -140,7 +166,7 @@ def run(tier):
             for u in [t["t"] for t in g["imp"][j]]:
                 if u != j and u not in own and j in own:
                     files = dict(files_of[i])
-                    files["main.ddp"] = main_src(g["imp"][0], probe=(j, "reexp", u))
+                    files["main.ddp"] = main_src(g["imp"][0], probe=(j, "reexp", u), indir=g["dir"])
                     pj.append(dict(files=files, main="main.ddp"))
                     pmeta.append((i, j, "reexp"))
     pans = pool.run(pj)
